@@ -470,6 +470,70 @@ pub fn check(case: &C02Case, st: &mut Stats) -> Verdict {
             }
         }
     }
-    let _ = render;
+    // 8. re-signed with a key that the token itself names: the bound holder key (cnf.jwk) or an
+    // attacker key planted in cnf / in the JOSE header. Only the key the resolver returns counts;
+    // "self-issued" looking payloads (sub == iss) are no exception. Presented without key binding so
+    // that nothing but the issuer signature decides.
+    {
+        let base = decode_jwt(&parts.jwt).map_err(|e| Failure::new("harness:void", e))?;
+        let render_nokb = |jwt: &str| -> Option<String> {
+            let p2 = crate::codec::Parts { jwt: jwt.to_string(), disclosures: parts.disclosures.clone(), kb: None };
+            render(&p2, spec.fmt)
+        };
+        let mut signers: Vec<(String, Alg, jsonwebtoken::EncodingKey, Option<Value>)> = vec![];
+        if let (Some(enc), Some(a)) = (spec.holder.enc(), spec.holder.alg()) {
+            signers.push(("the bound holder key (cnf.jwk)".into(), a, enc, None));
+        }
+        signers.push((
+            "an attacker key planted as cnf.jwk".into(),
+            Alg::ES256,
+            crate::keys::issuer_enc(Alg::ES256, KeyId::Attacker),
+            Some(serde_json::from_str::<Value>(crate::keys::EC_ATT_JWK).unwrap()),
+        ));
+        for (who, salg, enc, plant) in signers {
+            let iss = base.payload.get("iss").cloned();
+            let sub = base.payload.get("sub").cloned();
+            let mut payloads: Vec<(&str, Map<String, Value>)> = vec![("payload unchanged", base.payload.clone())];
+            if let Some(iss) = &iss {
+                let mut p = base.payload.clone();
+                p.insert("sub".into(), iss.clone());
+                payloads.push(("sub set to iss (self-issued look)", p));
+            }
+            if let Some(sub) = sub.filter(Value::is_string) {
+                let mut p = base.payload.clone();
+                p.insert("iss".into(), sub);
+                payloads.push(("iss set to sub", p));
+            }
+            for (pname, mut payload) in payloads {
+                if let Some(jwk) = &plant {
+                    payload.insert("cnf".into(), json!({ "jwk": jwk }));
+                }
+                let mut headers = vec![json!({"alg": salg.name()}), json!({"alg": spec.alg.name()})];
+                if let Some(jwk) = plant.clone().or_else(|| spec.holder.jwk_value()) {
+                    headers.push(json!({"alg": salg.name(), "jwk": jwk}));
+                }
+                for header in headers {
+                    let jwt = sut::sign_with_key(&header.to_string(), &Value::Object(payload.clone()).to_string(), salg, &enc);
+                    let text = match render_nokb(&jwt) {
+                        Some(t) => t,
+                        None => continue,
+                    };
+                    st.sub(1);
+                    st.label("tamper=re-signed with a key named inside the token");
+                    st.nontrivial_sub(&format!("self-named-key:{}:{}", who, pname));
+                    match sut::verify_full(&text, spec.fmt, &honest, None, None, None) {
+                        Out::Err(_) => {}
+                        Out::Ok(c) => {
+                            return Err(Failure::new(
+                                "accepted:re-signed with a key named inside the token",
+                                format!("a token re-signed with {} ({}; header {}) was accepted although the resolver returns the issuer's key\n  tampered: {}\n  returned claims: {}", who, pname, header, sut::clip(&text, 3000), c),
+                            ))
+                        }
+                        Out::Panic(p) => return Err(Failure::new(panic_sig("SDJWTVerifier::new", &p), format!("verifier panicked on a re-signed token: {}", p))),
+                    }
+                }
+            }
+        }
+    }
     Ok(())
 }
